@@ -179,3 +179,10 @@ func vfRunSpawned(i int)          {}
 func vfRacy(p any)                {}
 func vfHeld(p any) bool           { return false }
 func vfHeldByMe(p any) bool       { return false }
+
+// regexp call log (engine only)
+func vfMatchCount() int           { return 0 }
+func vfMatchExpr(i int) string    { return "" }
+func vfMatchSubject(i int) string { return "" }
+func vfMatchResult(i int) bool    { return false }
+func vfMatchErr(i int) bool       { return false }
